@@ -28,8 +28,8 @@ BACKENDS = ("pandas", "sqlite", "pg", "polars")
 CATALOG_COLUMN = {"pandas": "Pandas", "sqlite": "SQLiteModel", "pg": "PostgreSQLModel"}
 ARGCLASSES = ("all_null", "null", "nan", "boundary", "empty_string", "zero", "negative", "plain")
 SIZES = [1, 2, 3, 5, 6, 7, 8, 9, 10, 6, 8, 10]  # "about 5-10 rows", single row forced, small ones for shrinking
-QUICK_EXAMPLES = 36
-THOROUGH_EXAMPLES = 16 * 400
+QUICK_EXAMPLES = 30
+THOROUGH_EXAMPLES = 16 * 110  # ~10 min wall on 16 cores (16 * 400 measured 34 min)
 
 
 # ----------------------------------------------------------------------------------------------
@@ -441,18 +441,24 @@ def replay(check, case):
 
 
 def _extra_findings(ctx):
+    """VP_EXTRA_FINDINGS=/path/to.json: entries (same format as known_findings.json) appended to the loaded
+    findings before probing — used to try proposed entries without editing known_findings.json."""
     path = os.environ.get("VP_EXTRA_FINDINGS")
     if not path:
         return 0
     with open(path) as f:
         extra = json.load(f)
-    have = {e.get("id") for e in ctx.findings.open}
+    have = {e.get("id") for e in ctx.findings.entries}
     n = 0
     for e in extra:
-        if e.get("property") == PID and e.get("status", "open") == "open" and e.get("id") not in have:
+        if e.get("property") != PID or e.get("id") in have:
+            continue
+        ctx.findings.entries.append(e)
+        if e.get("status") == "open":
             ctx.findings.open.append(e)
-            ctx.findings.entries.append(e)
-            n += 1
+        elif e.get("status") == "fixed":
+            ctx.findings.fixed.append(e)
+        n += 1
     return n
 
 
